@@ -10,19 +10,21 @@
    such lists, for every channel capacity `cap` and with / without untrusted nodes (`ucfg`).
    Go's scheduler, TCP and timers are not in the model; the theorems are about the protocol's logic.
 
-   TWO schedules of today's code are excluded by explicit hypotheses, both stated below with a witness:
-   * `prompt acts = true` (D27): whenever the run loop (or monitorUntrustedNodes) reads a thread counter
-     as zero, every goroutine started for that class has already executed its first statement, the
-     counter increment.  The code increments the counters INSIDE the goroutines; a goroutine that is
-     not scheduled for the 100 ms + of the phase loop escapes the count (C19_d27_refuted: it then
-     delivers a buffered transaction to the handlers after stopped = true, and what was saved is stale).
-     Not reproducible against the real code without a scheduler hook; a fairness bound of the model.
-   * `d26_state = false` / "processUnconfirmedTxs has not left its loop on an error" (D26): if processing
-     an unconfirmed tx fails (output fetcher / storage error) while the tx channel is full,
-     processUnconfirmedTxs returns, monitorIncoming stays blocked inside TxChannel.Add holding the
-     mutex, incomingCount never reaches 0 and Stop never returns (C19_d26_refuted: nothing can move,
-     stopped is never reached whatever happens later).  REPLAYED against the real code by the
-     harness (corpus/C19/d26_consumer_abort_full_channel.json). *)
+   Model parameter `daf` ("drain after failure"): true = processUnconfirmedTxs as it is since fix 99e17c5
+   (after a processing error: requestStop, then keep taking and dropping items until the channel is
+   closed); false = as it was before (requestStop, break).  The safety theorems hold for both; the
+   termination theorems are stated for the code as it is (daf = true) WITHOUT any hypothesis about the
+   consumer; C19_d26_refuted shows what the old consumer did (Stop never returns) - that schedule was
+   replayed against the real code before the fix and is kept as the regression test
+   corpus/C19/d26_consumer_abort_full_channel.json, which now passes.
+
+   ONE schedule of today's code is excluded by an explicit hypothesis, stated below with a witness:
+   `prompt acts = true` (D27): whenever the run loop (or monitorUntrustedNodes) reads a thread counter
+   as zero, every goroutine started for that class has already executed its first statement, the
+   counter increment.  The code increments the counters INSIDE the goroutines; a goroutine that is
+   not scheduled for the 100 ms + of the phase loop escapes the count (C19_d27_refuted: it then
+   delivers a buffered transaction to the handlers after stopped = true, and what was saved is stale).
+   Not reproducible against the real code without a scheduler hook; a fairness bound of the model. *)
 From V.lib Require Import Base.
 From V.model Require Import Shutdown.
 From V.model Require Sync SyncSpec.
@@ -31,25 +33,25 @@ From V.proofs Require Import Shutdown_Proofs Shutdown_Term_Proofs Shutdown_Witne
 (* stopped_silent: in every reachable state with stopped = true, Run has returned, no goroutine
    exists any more in any state - in particular none that could invoke a handler - and no handler
    invocation has happened while stopped was true *)
-Theorem C19_stopped_silent : forall (cap : Z) (ucfg : bool) (acts : list act),
-  prompt cap ucfg acts = true ->
-  let w := run cap ucfg acts in
+Theorem C19_stopped_silent : forall (cap : Z) (ucfg daf : bool) (acts : list act),
+  prompt cap ucfg daf acts = true ->
+  let w := run cap ucfg daf acts in
   stopped w = true ->
   pc_of w = RDone /\ all_dead (w_thr w) /\ d_late (w_dat w) = false.
 Proof. exact stopped_silent. Qed.
 Print Assumptions C19_stopped_silent.
 
-Theorem C19_never_late : forall (cap : Z) (ucfg : bool) (acts : list act),
-  prompt cap ucfg acts = true -> d_late (w_dat (run cap ucfg acts)) = false.
+Theorem C19_never_late : forall (cap : Z) (ucfg daf : bool) (acts : list act),
+  prompt cap ucfg daf acts = true -> d_late (w_dat (run cap ucfg daf acts)) = false.
 Proof. exact never_late. Qed.
 Print Assumptions C19_never_late.
 
 (* saved_on_stop: the save phase runs only when every goroutine has ended and all counters are zero;
    from the end of the save phase until the next connection, and for ever once stopped, what is stored
    is the final in-memory data *)
-Theorem C19_saved_on_stop : forall (cap : Z) (ucfg : bool) (acts : list act),
-  prompt cap ucfg acts = true ->
-  let w := run cap ucfg acts in
+Theorem C19_saved_on_stop : forall (cap : Z) (ucfg daf : bool) (acts : list act),
+  prompt cap ucfg daf acts = true ->
+  let w := run cap ucfg daf acts in
   (pc_of w = RSave -> all_dead (w_thr w) /\ n_in (w_cnt w) = 0 /\ n_proc (w_cnt w) = 0 /\ n_un (w_cnt w) = 0) /\
   (saved_pc (pc_of w) = true -> d_disk (w_dat w) = d_mem (w_dat w)) /\
   (stopped w = true -> d_disk (w_dat w) = d_mem (w_dat w)).
@@ -59,105 +61,109 @@ Print Assumptions C19_saved_on_stop.
 (* stop_terminates, in three parts.  Fairness assumption: every enabled step of the run loop or of a
    goroutine eventually happens (handler callbacks, storage calls, conn.Close, the fetchers return:
    they are steps, not blocking points).
-   (1) never stuck: in every reachable state, once stopping is set (a stop request, a restart, an
-       abort) and until stopped, some step of the run loop or of a goroutine is enabled - unless the
-       state is a D26 state *)
+   (1) never stuck: in every reachable state of the code as it is, once stopping is set (a stop
+       request, a restart, an abort) and until stopped, some step of the run loop or of a goroutine
+       is enabled *)
 Theorem C19_stop_progress : forall (cap : Z) (ucfg : bool) (acts : list act),
-  1 <= cap -> prompt cap ucfg acts = true ->
-  let w := run cap ucfg acts in
-  stopping w = true -> stopped w = false -> d26_state cap w = false ->
-  exists a, benign a = true /\ thread_act a = true /\ prompt_ok w a = true /\ step cap ucfg w a <> None.
-Proof. exact stop_progress_reachable. Qed.
+  1 <= cap -> prompt cap ucfg true acts = true ->
+  let w := run cap ucfg true acts in
+  stopping w = true -> stopped w = false ->
+  exists a, benign a = true /\ thread_act a = true /\ prompt_ok w a = true /\ step cap ucfg true w a <> None.
+Proof. exact stop_progress_fixed. Qed.
 Print Assumptions C19_stop_progress.
+
+(* ... for either consumer: the only reachable stuck states are the D26 states *)
+Theorem C19_stop_progress_any : forall (cap : Z) (ucfg daf : bool) (acts : list act),
+  1 <= cap -> prompt cap ucfg daf acts = true ->
+  let w := run cap ucfg daf acts in
+  stopping w = true -> stopped w = false -> d26_state cap w = false ->
+  exists a, benign a = true /\ thread_act a = true /\ prompt_ok w a = true /\ step cap ucfg daf w a <> None.
+Proof. exact stop_progress_reachable. Qed.
+Print Assumptions C19_stop_progress_any.
 
 (* (2) bounded work: after the application's stop request (Stop has set hardStop and called
        requestStop), along EVERY continuation - any interleaving, any behaviour of the peers - the number
        of enabled run-loop / goroutine steps taken is at most rank(w) - rank(w') plus the work carried
        by accepted untrusted-peer messages; rank is a natural-number measure of phase, program points,
        remaining body lengths and channel fill (model/Shutdown.v `rank`) *)
-Theorem C19_stop_bounded_work : forall (cap : Z) (ucfg : bool) (acts acts' : list act),
-  prompt cap ucfg (acts ++ acts') = true ->
-  let w := run cap ucfg acts in
+Theorem C19_stop_bounded_work : forall (cap : Z) (ucfg daf : bool) (acts acts' : list act),
+  prompt cap ucfg daf (acts ++ acts') = true ->
+  let w := run cap ucfg daf acts in
   stopcall w = 2 ->
-  0 <= rank (run_from cap ucfg w acts') /\
-  rank (run_from cap ucfg w acts') + effective cap ucfg w acts' <= rank w + injected cap ucfg w acts'.
+  0 <= rank (run_from cap ucfg daf w acts') /\
+  rank (run_from cap ucfg daf w acts') + effective cap ucfg daf w acts' <= rank w + injected cap ucfg daf w acts'.
 Proof. exact stop_bounded_work_reachable. Qed.
 Print Assumptions C19_stop_bounded_work.
 
 (* ... untrusted-peer messages are accepted only while monitorUntrustedNodes is still on its way to
    "Stop all"; that goroutine is then never blocked, each of its steps brings it closer (mu_dist) and
    no other step takes it further away: under the fairness assumption the injection ends *)
-Theorem C19_injection_needs_mu : forall (cap : Z) (ucfg : bool) (acts : list act) (n : nat),
-  prompt cap ucfg acts = true ->
-  let w := run cap ucfg acts in
-  step cap ucfg w (AUnMsg n) <> None ->
-  exists p f, thread w MU = TLive p f /\ p <> PWaitUn /\ step cap ucfg w (AStep MU KEnd 0) <> None.
+Theorem C19_injection_needs_mu : forall (cap : Z) (ucfg daf : bool) (acts : list act) (n : nat),
+  prompt cap ucfg daf acts = true ->
+  let w := run cap ucfg daf acts in
+  step cap ucfg daf w (AUnMsg n) <> None ->
+  exists p f, thread w MU = TLive p f /\ p <> PWaitUn /\ step cap ucfg daf w (AStep MU KEnd 0) <> None.
 Proof. exact injection_needs_mu_reachable. Qed.
 Print Assumptions C19_injection_needs_mu.
 
-Theorem C19_mu_dist_decreases : forall (cap : Z) (ucfg : bool) (acts : list act) (a : act) (w' : sw),
-  let w := run cap ucfg acts in
-  stopping w = true -> (a = AReg MU \/ exists k n, a = AStep MU k n) -> step cap ucfg w a = Some w' ->
+Theorem C19_mu_dist_decreases : forall (cap : Z) (ucfg daf : bool) (acts : list act) (a : act) (w' : sw),
+  let w := run cap ucfg daf acts in
+  stopping w = true -> (a = AReg MU \/ exists k n, a = AStep MU k n) -> step cap ucfg daf w a = Some w' ->
   (forall f, thread w MU <> TLive PWaitUn f) ->
   mu_dist ucfg w' < mu_dist ucfg w.
 Proof. exact mu_dist_decreases_reachable. Qed.
 Print Assumptions C19_mu_dist_decreases.
 
-Theorem C19_mu_dist_stable : forall (cap : Z) (ucfg : bool) (acts : list act) (a : act) (w' : sw),
-  prompt cap ucfg acts = true ->
-  let w := run cap ucfg acts in
+Theorem C19_mu_dist_stable : forall (cap : Z) (ucfg daf : bool) (acts : list act) (a : act) (w' : sw),
+  prompt cap ucfg daf acts = true ->
+  let w := run cap ucfg daf acts in
   stopping w = true -> hard w = true ->
-  a <> AReg MU -> (forall k n, a <> AStep MU k n) -> step cap ucfg w a = Some w' ->
+  a <> AReg MU -> (forall k n, a <> AStep MU k n) -> step cap ucfg daf w a = Some w' ->
   mu_dist ucfg w' <= mu_dist ucfg w.
 Proof. exact mu_dist_stable_reachable. Qed.
 Print Assumptions C19_mu_dist_stable.
 
-(* (3) a terminating schedule of at most rank(w) steps exists from every reachable state after a stop
-       request in which processUnconfirmedTxs has not left its loop on an error *)
+(* (3) from every reachable state of the code as it is, after a stop request, a schedule of at most
+       rank(w) run-loop / goroutine steps reaches stopped = true *)
 Theorem C19_stop_reaches_stopped : forall (cap : Z) (ucfg : bool) (acts : list act),
-  1 <= cap -> prompt cap ucfg acts = true ->
-  let w := run cap ucfg acts in
-  stopcall w = 2 -> d_pufail (w_dat w) = false ->
-  exists acts', forallb thread_act acts' = true /\ prompt_from cap ucfg w acts' = true /\
-                Z.of_nat (length acts') <= rank w /\ stopped (run_from cap ucfg w acts') = true.
-Proof. exact stop_reaches_stopped. Qed.
+  1 <= cap -> prompt cap ucfg true acts = true ->
+  let w := run cap ucfg true acts in
+  stopcall w = 2 ->
+  exists acts', forallb thread_act acts' = true /\ prompt_from cap ucfg true w acts' = true /\
+                Z.of_nat (length acts') <= rank w /\ stopped (run_from cap ucfg true w acts') = true.
+Proof. exact stop_reaches_stopped_fixed. Qed.
 Print Assumptions C19_stop_reaches_stopped.
 
-(* D26, capacity 100 as in the code: a reachable state after the stop request in which no step of the
-   run loop or of any goroutine is enabled, and from which stopped is never reached *)
+(* D26 - the consumer BEFORE fix 99e17c5 (daf = false), capacity 100 as in the code: a reachable state
+   after the stop request in which no step of the run loop or of any goroutine is enabled, and from
+   which stopped is never reached whatever happens later *)
 Theorem C19_d26_refuted :
-  exists acts, prompt 100 false acts = true /\
-    let w := run 100 false acts in
+  exists acts, prompt 100 false false acts = true /\
+    let w := run 100 false false acts in
     stopcall w = 2 /\ stopped w = false /\ d26_state 100 w = true /\
-    (forall a, thread_act a = true -> step 100 false w a = None) /\
-    (forall acts', stopped (run_from 100 false w acts') = false).
+    (forall a, thread_act a = true -> step 100 false false w a = None) /\
+    (forall acts', stopped (run_from 100 false false w acts') = false).
 Proof. exact d26_refuted. Qed.
 Print Assumptions C19_d26_refuted.
 
-(* the hang is permanent in every state of that shape, for every capacity *)
-Theorem C19_d26_stuck_forever : forall (cap : Z) (ucfg : bool) (acts' : list act) (w : sw),
-  stuck cap w -> stopped (run_from cap ucfg w acts') = false.
-Proof. exact stuck_forever. Qed.
-Print Assumptions C19_d26_stuck_forever.
-
-(* D27: without the prompt-registration hypothesis both safety theorems fail *)
+(* D27: without the prompt-registration hypothesis both safety theorems fail (code as it is) *)
 Theorem C19_d27_refuted :
-  exists acts, prompt 100 false acts = false /\
-    let w := run 100 false acts in
+  exists acts, prompt 100 false true acts = false /\
+    let w := run 100 false true acts in
     stopped w = true /\ d_late (w_dat w) = true /\ d_disk (w_dat w) <> d_mem (w_dat w) /\
-    exists pre post, acts = pre ++ ARun true :: post /\ prompt 100 false pre = true /\
-                     pc_of (run 100 false pre) = RWaitProc /\ thread (run 100 false pre) PU = TSpawned.
+    exists pre post, acts = pre ++ ARun true :: post /\ prompt 100 false true pre = true /\
+                     pc_of (run 100 false true pre) = RWaitProc /\ thread (run 100 false true pre) PU = TSpawned.
 Proof. exact d27_refuted. Qed.
 Print Assumptions C19_d27_refuted.
 
 (* reconnect_resumes.  (a) A restart (lost connection, time-out) goes through the same phases: when
    the run loop is back at its head every goroutine of the old round has ended, everything was saved,
    the in-memory data are unchanged, and the stop flags are reset. *)
-Theorem C19_restart_resumes : forall (cap : Z) (ucfg : bool) (acts : list act),
-  prompt cap ucfg acts = true ->
-  let w := run cap ucfg acts in
+Theorem C19_restart_resumes : forall (cap : Z) (ucfg daf : bool) (acts : list act),
+  prompt cap ucfg daf acts = true ->
+  let w := run cap ucfg daf acts in
   pc_of w = RDecide -> needs w = true -> hard w = false ->
-  let w' := apply cap ucfg w (ARun true) in
+  let w' := apply cap ucfg daf w (ARun true) in
   pc_of w' = RLoop /\ stopping w' = false /\ needs w' = false /\ stopped w' = false /\
   all_dead (w_thr w') /\ d_disk (w_dat w') = d_mem (w_dat w') /\ d_mem (w_dat w') = d_mem (w_dat w).
 Proof. exact restart_resumes. Qed.
@@ -182,7 +188,7 @@ Print Assumptions C19_reconnect_resumes.
 
 (* the scenario runner of the correspondence check only takes steps of the transition system *)
 Theorem C19_settle_reach : forall fuel listen a b c w,
-  exists acts, settle fuel listen a b c w = run_from scap false w acts.
+  exists acts, settle fuel listen a b c w = run_from scap false true w acts.
 Proof. exact settle_reach. Qed.
 Print Assumptions C19_settle_reach.
 
@@ -200,8 +206,8 @@ Example C19_example_acts : list act :=
   [ARun true; ARun true] ++ regs ++ [m] ++ msg ++ [APeerClose; m] ++ down ++
   [ARun true; ARun true] ++ regs ++ [m] ++ msg ++ [AStopFlag; AStopReq] ++ down ++ [ARun true].
 Example C19_example :
-  prompt 100 false C19_example_acts = true /\
-  let w := run 100 false C19_example_acts in
+  prompt 100 false true C19_example_acts = true /\
+  let w := run 100 false true C19_example_acts in
   stopped w = true /\ w_gen w = 2 /\ d_calls (w_dat w) = 6 /\ d_mem (w_dat w) = 4 /\ d_disk (w_dat w) = 4 /\
   d_late (w_dat w) = false /\ stopcall w = 2.
 Proof. vm_compute. repeat split; reflexivity. Qed.
@@ -210,16 +216,17 @@ Proof. vm_compute. repeat split; reflexivity. Qed.
    C19_stop_reaches_stopped hold and its bound is 17 steps *)
 Example C19_example_stop_requested :
   let acts := firstn 28 C19_example_acts ++ [AStopFlag; AStopReq] in
-  prompt 100 false acts = true /\ stopcall (run 100 false acts) = 2 /\ stopped (run 100 false acts) = false /\
-  d_pufail (w_dat (run 100 false acts)) = false /\ rank (run 100 false acts) = 17.
+  prompt 100 false true acts = true /\ stopcall (run 100 false true acts) = 2 /\ stopped (run 100 false true acts) = false /\
+  rank (run 100 false true acts) = 17.
 Proof. vm_compute. repeat split; reflexivity. Qed.
 
-(* the scenario model reproduces the D26 replay: Stop does not return; after the harness has emptied
-   the channel it does, and the monitor reports code 902 at the stop *)
+(* the scenario model (code as it is) on the regression scenario of D26: the consumer fails while the
+   channel is full and monitorIncoming waits inside Add; the node stops by itself, Stop returns, nothing
+   is left for the harness to empty, the monitor is silent *)
 Example C19_example_d26_scenario :
   let ops := [SStart; SAccept; SVersion; SSync; SHold 100; STx 1 true; SBurst 101; SRelease true; SStop; SCounts;
               SDrain; SStopWait; SQuiet; SStored] in
-  srun ops = [[0]; [0; 1; 0]; [0; 1; 1; 0]; [0; 1]; [0]; [0; 0]; [0; 1]; [0]; [0; 0; 0]; [0; 1; 1]; [0; 1]; [0; 1; 1];
+  srun ops = [[0]; [0; 1; 0]; [0; 1; 1; 0]; [0; 1]; [0]; [0; 0]; [0; 1]; [0]; [0; 1; 1]; [0; 0; 0]; [0; 0]; [0; 1; 1];
               [0; 0; 0]; [0; 0; 0; 0; 1; 1; 1; 1; 0; 0]] /\
-  c19_monitor ops (srun ops) = Some (8, [902]).
+  c19_monitor ops (srun ops) = None.
 Proof. vm_compute. split; reflexivity. Qed.
